@@ -138,7 +138,8 @@ where
                     .extend(uwalk.clone(), LTerm::from(w / v));
                 state.run_constraints()
             }
-            (LTermInner::Var(_, _), LTermInner::Var(_, _), LTermInner::Val(LValue::Number(_)))
+            (LTermInner::Var(_, _), LTermInner::Var(_, _), LTermInner::Var(_, _))
+            | (LTermInner::Var(_, _), LTermInner::Var(_, _), LTermInner::Val(LValue::Number(_)))
             | (LTermInner::Var(_, _), LTermInner::Val(LValue::Number(_)), LTermInner::Var(_, _))
             | (LTermInner::Val(LValue::Number(_)), LTermInner::Var(_, _), LTermInner::Var(_, _)) => {
                 /* Not enough terms grounded to verify constraint. */
